@@ -337,3 +337,109 @@ func VerifC11_SizeRotationPurge() {
 		verifCheckAll(wal, m, "after purge and restart")
 	}
 }
+
+// verifBigEntry: CBOR array(2){uint epoch, bytes padding}: an entry of chosen size.
+type verifBigEntry struct {
+	Epoch uint64
+	Pad   int
+}
+
+func (e *verifBigEntry) WALEpoch() uint64 { return e.Epoch }
+
+func (e *verifBigEntry) MarshalCBOR(w io.Writer) error {
+	cw := cbg.NewCborWriter(w)
+	if err := cw.WriteMajorTypeHeader(cbg.MajArray, 2); err != nil {
+		return err
+	}
+	if err := cw.WriteMajorTypeHeader(cbg.MajUnsignedInt, e.Epoch); err != nil {
+		return err
+	}
+	if err := cw.WriteMajorTypeHeader(cbg.MajByteString, uint64(e.Pad)); err != nil {
+		return err
+	}
+	_, err := cw.Write(make([]byte, e.Pad))
+	return err
+}
+
+func (e *verifBigEntry) UnmarshalCBOR(r io.Reader) error {
+	cr := cbg.NewCborReader(r)
+	maj, n, err := cr.ReadHeader()
+	if err != nil {
+		return err
+	}
+	if maj != cbg.MajArray || n != 2 {
+		return fmt.Errorf("verifBigEntry: bad header")
+	}
+	maj, v, err := cr.ReadHeader()
+	if err != nil {
+		return err
+	}
+	if maj != cbg.MajUnsignedInt {
+		return fmt.Errorf("verifBigEntry: bad epoch")
+	}
+	e.Epoch = v
+	maj, v, err = cr.ReadHeader()
+	if err != nil {
+		if err == io.EOF {
+			return io.ErrUnexpectedEOF
+		}
+		return err
+	}
+	if maj != cbg.MajByteString || v > 2<<20 {
+		return fmt.Errorf("verifBigEntry: bad padding")
+	}
+	buf := make([]byte, v)
+	if _, err := io.ReadFull(cr, buf); err != nil {
+		if err == io.EOF {
+			return io.ErrUnexpectedEOF
+		}
+		return err
+	}
+	e.Pad = int(v)
+	return nil
+}
+
+var _ Entry = (*verifBigEntry)(nil)
+
+// VerifC11_EntryAcrossTheRotationMark: a log file filled with real entries up
+// to just below, exactly at, or just beyond the 1 MiB rotation mark, then one
+// more small entry (which straddles the mark, starts right at it, or goes to
+// a new file after a size rotation): every acknowledged entry is returned
+// intact, in the same process and after a restart.
+func VerifC11_EntryAcrossTheRotationMark() {
+	dir, err := os.MkdirTemp("", "verifwal")
+	if err != nil {
+		panic(err)
+	}
+	defer os.RemoveAll(dir)
+	wal, err := Open[verifBigEntry](dir)
+	if err != nil {
+		panic(err)
+	}
+	// the first entry takes 1 (array) + 1 (epoch) + 5 (byte string header) + pad bytes
+	first := verifBigEntry{Epoch: 3, Pad: rotateAt - 7 + []int{-4, 0, 1}[sym.Choice("first-file-size", 3)]}
+	second := verifBigEntry{Epoch: 5, Pad: 6} // 9 bytes
+	sym.Assert(wal.Append(first) == nil && wal.Append(second) == nil, "appends succeed")
+	check := func(when string) {
+		got, err := wal.All()
+		sym.Assert(err == nil, when+": read succeeds")
+		sym.Assert(len(got) == 2 && got[0].Epoch == 3 && got[0].Pad == first.Pad && got[1].Epoch == 5 && got[1].Pad == 6, when+": every acknowledged entry is returned intact")
+	}
+	sym.Cover("appended")
+	check("same process")
+	sym.Assert(wal.Close() == nil, "close succeeds")
+	wal, err = Open[verifBigEntry](dir)
+	sym.Assert(err == nil, "reopen succeeds")
+	if err != nil {
+		return
+	}
+	check("after restart")
+	// nothing at or above the purge epoch is lost
+	sym.Assert(wal.Purge(5) == nil, "purge succeeds")
+	got, err := wal.All()
+	found := false
+	for _, e := range got {
+		found = found || e.Epoch == 5
+	}
+	sym.Assert(err == nil && found, "after purge: the entry at the purge epoch is kept")
+}
